@@ -33,7 +33,7 @@ class C12(BaseCheck):
   REQUIRED_CLASSES = tuple('%s/%s' % h for h in HOPS) + ('boundary', 'discard-expected', 'expired-not-sent')
   ASSUMPTIONS = ('bytes are attributed to calls through the frames the server decodes (cid in the argument) '
                  'plus a scan of undecoded trailing bytes for the call id',)
-  QUICK_CASES = 360
+  QUICK_CASES = 1440
   THOROUGH_CASES = 9000
   QUICK_WALL = 50
   THOROUGH_WALL = 420
